@@ -28,7 +28,7 @@ print('|---|---|---|---|---|')
 for f in sorted(glob.glob(os.path.join(root, 'evidence', 'C*.json'))):
     d = json.load(open(f)); c = d['coverage']; pid = d['property_id']
     if 'scenarios' in c and isinstance(c['scenarios'], list) and c['scenarios'] and 'K' in c['scenarios'][0]:
-        what = '; '.join(f"{s['name']} (A={s["alphabet"]}, K={s['K']}, D={s['D']}{', prelude '+str(s['prelude']) if s.get('prelude') else ''})" for s in c['scenarios'])
+        what = '; '.join(f"{s['name']} (A={s['alphabet']}, K={s['K']}, D={s['D']}{', prelude '+str(s['prelude']) if s.get('prelude') else ''})" for s in c['scenarios'])
     elif 'jobs' in c:
         what = '; '.join(str(j) for j in c['jobs'])
     else:
